@@ -87,33 +87,31 @@ theorem lostFold_fst (l : List Pkt) : ∀ (b : Nat) (t : Option Nat), (lostFold 
     · rename_i hc; rw [ih]; simp [ccSum, hc]; omega
     · rename_i hc; rw [ih]; simp [ccSum, hc]
 
-theorem lossWalk_bal (T ld L la : Nat) (l : List Pkt) : ∀ (k : Nat) (lt : Option Nat),
-    outstanding l = outstanding (lossWalk T ld L la l k lt).1 + ccSum ((lossWalk T ld L la l k lt).2.1.map (·.2)) := by
+theorem lossWalk_bal (T ld L : Nat) (l : List Pkt) : ∀ (k : Nat) (lt : Option Nat),
+    outstanding l = outstanding (lossWalk T ld L l k lt).1 + ccSum ((lossWalk T ld L l k lt).2.1.map (·.2)) := by
   induction l with
   | nil => intro k lt; simp [lossWalk, outstanding, ccSum]
   | cons p ps ih =>
     intro k lt
     unfold lossWalk
     split
-    · rename_i hI0
-      have hI : (p.st == PSt.I) = true := by
-        simp only [Bool.and_eq_true] at hI0; exact hI0.1
+    · rename_i hI
       split
       · have ih' := ih (k + 1) lt
-        generalize (lossWalk T ld L la ps (k + 1) lt) = w at *
+        generalize (lossWalk T ld L ps (k + 1) lt) = w at *
         obtain ⟨ps', lost, lt'⟩ := w
         simp only at ih' ⊢
         simp only [outstanding, List.map_cons, ccSum, hI]
         cases p.cc <;> simp <;> omega
       · simp only
         have ih' := ih (k + 1) (match lt with | some t => some (min t (p.ts + ld)) | none => some (p.ts + ld))
-        generalize (lossWalk T ld L la ps (k + 1) _) = w at *
+        generalize (lossWalk T ld L ps (k + 1) _) = w at *
         obtain ⟨ps', lost, lt'⟩ := w
         simp only at ih' ⊢
         simp only [outstanding]
         omega
     · have ih' := ih (k + 1) lt
-      generalize (lossWalk T ld L la ps (k + 1) lt) = w at *
+      generalize (lossWalk T ld L ps (k + 1) lt) = w at *
       obtain ⟨ps', lost, lt'⟩ := w
       simp only at ih' ⊢
       simp only [outstanding]
@@ -222,13 +220,13 @@ theorem onPacketsLost_frame {s s' : St} {l : List Pkt} {p : Bool} (h : onPackets
     · unfold persistentCollapse; exact ⟨k.1, k.2.1, k.2.2.1, k.2.2.2⟩
     · exact k
 
-theorem detectLostLa_bal {s s' : St} {e ld la : Nat} {lost : List Nat}
-    (h : detectLostLa s e ld la = .ok (s', lost)) (hb : Bal s) : Bal s' := by
-  unfold detectLostLa at h
+theorem detectLost_bal {s s' : St} {e ld : Nat} {lost : List Nat} (h : detectLost s e ld = .ok (s', lost))
+    (hb : Bal s) : Bal s' := by
+  unfold detectLost at h
   simp only at h
-  have hw := lossWalk_bal (s.now - ld - (getSp s e).mad) ld (bsearch (getSp s e).sent la) la
+  have hw := lossWalk_bal (s.now - ld - (getSp s e).mad) ld (bsearch (getSp s e).sent ((getSp s e).la.getD 0))
     (getSp s e).sent 0 none
-  generalize (lossWalk (s.now - ld - (getSp s e).mad) ld (bsearch (getSp s e).sent la) la
+  generalize (lossWalk (s.now - ld - (getSp s e).mad) ld (bsearch (getSp s e).sent ((getSp s e).la.getD 0))
     (getSp s e).sent 0 none) = w at *
   obtain ⟨sent', lostp, lt'⟩ := w
   simp only at h hw
@@ -251,13 +249,6 @@ theorem detectLostLa_bal {s s' : St} {e ld la : Nat} {lost : List Nat}
       unfold Bal at *
       rw [f1, f2.all, setSp_bytes]
       omega
-
-theorem detectLost_bal {s s' : St} {e ld : Nat} {lost : List Nat} (h : detectLost s e ld = .ok (s', lost))
-    (hb : Bal s) : Bal s' := by
-  unfold detectLost at h
-  split at h
-  · cases h; exact bal_setSp_same _ _ rfl hb
-  · exact detectLostLa_bal h hb
 
 theorem onTimeout_bal {s s' : St} {i : Inp} {l : List (Nat × List Nat)} (h : onTimeout s i = .ok (s', l))
     (hb : Bal s) : Bal s' := by
@@ -300,46 +291,40 @@ theorem discardEpoch_bal {s s' : St} {e a b : Nat} (h : discardEpoch s e a b = .
     · exact bal_of_eq (s := setSp { s with bytes := bytes } e { getSp s e with sent := [], tl := none, lt := none }) rfl rfl rfl rfl kb
     · split <;> exact bal_of_eq rfl rfl rfl rfl kb
 
-theorem pushPkt_bytes (s : St) (e : Nat) (p : Pkt) :
-    (pushPkt s e p).bytes = s.bytes ∧
-    outstandingAll (pushPkt s e p) = outstandingAll s + (if p.st == PSt.I && p.cc then p.size else 0) := by
-  unfold pushPkt
-  have hsp := outstandingAll_setSp s e { getSp s e with sent := (getSp s e).sent ++ [p] }
-  simp only [outstanding_append] at hsp
-  refine ⟨setSp_bytes _ _ _, ?_⟩
-  simp only at hsp ⊢
-  omega
-
 theorem onPktSent_bal {s s' : St} {i : Inp} {e pn : Nat} {elic infl : Bool} {size : Nat}
     (h : onPktSent s i e pn elic infl size = .ok s') (hb : Bal s) : Bal s' := by
   unfold onPktSent at h
   simp only [ebind_ok] at h
-  obtain ⟨s3, h1, h2⟩ := h
-  have k3 : Bal s3 := by
-    cases infl
-    · simp only [Bool.false_eq_true, if_false] at h1
+  obtain ⟨s1, h1, h2⟩ := h
+  -- after the in-flight block: bytes already count the new packet, the list does not hold it yet
+  have k1 : s1.bytes = outstandingAll s1 + (if infl then size else 0) := by
+    split at h1
+    · rename_i hi
+      rw [setTimer_eq h1]
+      simp only [hi, if_true]
+      show (sentInflight s i.ld0 e elic size).bytes = outstandingAll (sentInflight s i.ld0 e elic size) + size
+      unfold sentInflight
+      simp only [setSp_bytes]
+      rw [outstandingAll_setSp_same]
+      · unfold Bal at hb
+        show s.bytes + size = outstandingAll s + size
+        omega
+      · show _ = (getSp s e).sent
+        split <;> split <;> rfl
+    · rename_i hi
       cases h1
-      obtain ⟨b1, b2⟩ := pushPkt_bytes s e { pn := pn, ts := s.now, elic := elic, cc := false, size := size, st := PSt.I }
-      unfold Bal at *
-      rw [b1, b2]; simpa using hb
-    · simp only [if_true] at h1
-      refine setTimer_bal h1 ?_
-      obtain ⟨b1, b2⟩ := pushPkt_bytes (sentInflight s e elic size) e { pn := pn, ts := s.now, elic := elic, cc := true, size := size, st := PSt.I }
-      have c1 : (sentInflight s e elic size).bytes = s.bytes + size := by
-        unfold sentInflight; simp only [setSp_bytes]
-      have c2 : outstandingAll (sentInflight s e elic size) = outstandingAll s := by
-        unfold sentInflight
-        rw [outstandingAll_setSp_same]
-        · rfl
-        · show _ = (getSp s e).sent
-          split <;> rfl
-      unfold Bal at *
-      rw [b1, b2, c1, c2]
-      simp
-      omega
+      simp only [hi]
+      unfold Bal at hb; simpa using hb
+  have k2 : Bal (pushPkt s1 e { pn := pn, ts := s.now, elic := elic, cc := infl, size := size, st := PSt.I }) := by
+    unfold pushPkt Bal
+    have hsp := outstandingAll_setSp s1 e { getSp s1 e with sent := (getSp s1 e).sent ++ [{ pn := pn, ts := s.now, elic := elic, cc := infl, size := size, st := PSt.I }] }
+    simp only [outstanding_append] at hsp
+    rw [setSp_bytes, k1]
+    simp only at hsp ⊢
+    cases infl <;> simp at hsp ⊢ <;> omega
   split at h2
-  · exact discardEpoch_bal h2 k3
-  · cases h2; exact k3
+  · exact discardEpoch_bal h2 k2
+  · cases h2; exact k2
 
 theorem spaceOnAck_bal {s : St} (e : Nat) (a : Ack) (hb : Bal s) : Bal (spaceOnAck s e a).1 := by
   unfold spaceOnAck
